@@ -8,6 +8,7 @@ import (
 	"errors"
 	"fmt"
 	"io"
+	"math"
 	"os"
 	"path/filepath"
 	"slices"
@@ -127,8 +128,8 @@ func NewEncryptedISO(f afero.File, data1 []byte, clearRegions bool) (*EncryptedI
 
 		// encrypted region placed between previous unencrypted region and current unencrypted region
 		encryptedRegions = append(encryptedRegions, region{
-			start: sizeSectors(unencryptedRegions[i-1].End),
-			end:   sizeSectors(unencryptedRegion.Start),
+			start: regionBorder(unencryptedRegions[i-1].End),
+			end:   regionBorder(unencryptedRegion.Start),
 		})
 	}
 
@@ -264,6 +265,12 @@ func (e *EncryptedISO) setIVForSector(sector sizeSectors, clone bool) cipher.Blo
 	var iv [encryptionKeySize]byte
 	binary.BigEndian.PutUint32(iv[len(iv)-4:], uint32(sector))
 	return cipher.NewCBCDecrypter(e.cip, iv[:])
+}
+
+// regionBorder converts region border from the table to sector number. Borders above the sector number range
+// are clamped to it (instead of wrapping to negative numbers): such sectors lie beyond the end of any file.
+func regionBorder(v uint32) sizeSectors {
+	return sizeSectors(min(v, math.MaxInt32))
 }
 
 // tryGetRedumpKey attempts to find encryption key for .iso image.
